@@ -50,6 +50,7 @@ class World:
         self._eid = 0
         self.groups = {}
         self.ps = {}
+        self.gs = {}       # name -> PS-like record of a group object (pid None): usable without any parameter set
         self.notes = []
         gid = 0
         pid = 0
@@ -57,6 +58,7 @@ class World:
             for name in ("ed", "1024", "2048", "3072"):
                 self.pre("group %d pub %s" % (gid, name))
                 self.groups[name] = gid
+                self.gs[name] = self.mkps(None, gid, "ed" if name == "ed" else "int", name)
                 gid += 1
         if "shipped" in want:
             for name in ("ed", "1024", "2048", "3072"):
@@ -67,6 +69,7 @@ class World:
             for name, seeds, key, base in (("ed", (b"M2", b"N", b"symmetric"), "ed/altM", "ed"), ("ed", (b"M", b"N2", b"symmetric"), "ed/altN", "ed"),
                                            ("ed", (b"M", b"N", b"sym2"), "ed/altS", "ed"), ("1024", (b"", b"\x00", b"x" * 70), "1024/custom", None),
                                            # seed pairs whose concatenations coincide (M||N = "MNN" both ways)
+                                           ("ed", (b"N", b"M", b"symmetric"), "ed/swapMN", None),
                                            ("ed", (b"M", b"NN", b"symmetric"), "ed/shift1", None), ("ed", (b"MN", b"N", b"symmetric"), "ed/shift2", None)):
                 self.pre("params %d %d %s %s %s" % (pid, self.groups[name], hx(seeds[0]), hx(seeds[1]), hx(seeds[2])))
                 self.ps[key] = self.mkps(pid, self.groups[name], "ed" if name == "ed" else "int", key, seeds=seeds)
@@ -85,6 +88,10 @@ class World:
                 name = "toy%d_%d_%d" % (p, q, g)
                 if out == "ok":
                     self.groups[name] = gid
+                    try:
+                        self.gs[name] = self.mkps(None, gid, "int", name, toy=True, pqg=(p, q, g))
+                    except Exception as e:
+                        self.notes.append("%s: %s" % (name, e))
                     main = None
                     for seeds in ((b"M", b"N", b"symmetric"), (b"m1", b"n1", b"s1"), (b"a", b"b", b"c"), (b"m2", b"n2", b"s2")):
                         o = self.pre("params %d %d %s %s %s" % (pid, gid, hx(seeds[0]), hx(seeds[1]), hx(seeds[2])))
@@ -117,6 +124,7 @@ class World:
                 name = "toyed%d" % Q
                 if out == "ok":
                     self.groups[name] = gid
+                    self.gs[name] = self.mkps(None, gid, "ed", name, toy=True, curve=cv)
                     o = self.pre("params %d %d 4d 4e 73796d6d6574726963" % (pid, gid))
                     if o == "ok":
                         self.ps[name] = self.mkps(pid, gid, "ed", name, toy=True, curve=cv)
